@@ -149,6 +149,17 @@ def py_diff(ctx):
             ctx.require(c)
 
 
+def _tlapm(wd, mod):
+    """Run the TLA+ proof manager on one module.  A proof obligation that times out under load (all 16 cores busy with TLC or cargo)
+    is retried once with four-fold back-end timeouts; obligations already proved are kept by their fingerprints, nothing else
+    changes (the same proofs, the same back ends)."""
+    import subprocess
+    p = subprocess.run(["timeout", "1500", "tlapm", "--threads", "6", "--cleanfp", mod], cwd=wd, stdout=subprocess.PIPE, stderr=subprocess.STDOUT, text=True)
+    if "obligations proved" not in p.stdout or "failed" in p.stdout:
+        p = subprocess.run(["timeout", "2400", "tlapm", "--threads", "6", "--stretch", "4", mod], cwd=wd, stdout=subprocess.PIPE, stderr=subprocess.STDOUT, text=True)
+    return p
+
+
 def carry_proofs(ctx):
     """TLAPS checks spec/proofs/RangeCarry.tla (theorem CarryStep, inductive): the range encoder with its held-back words - it never
     revisits a written word - emits exactly the digits of the arbitrary-precision, carry-propagating reference coder, for ALL widths,
@@ -158,7 +169,7 @@ def carry_proofs(ctx):
     import shutil, subprocess, re
     wd = os.path.join(ctx.work, "proofs_carry")
     shutil.copytree(os.path.join(core.SPEC, "proofs"), wd, ignore=shutil.ignore_patterns(".tlacache"))
-    p = subprocess.run(["timeout", "1500", "tlapm", "--threads", "6", "--cleanfp", "RangeCarry.tla"], cwd=wd, stdout=subprocess.PIPE, stderr=subprocess.STDOUT, text=True)
+    p = _tlapm(wd, "RangeCarry.tla")
     m = re.search(r"All (\d+) obligations proved", p.stdout)
     if not m:
         raise core.ToolError("TLAPS did not prove spec/proofs/RangeCarry.tla:\n" + p.stdout[-1500:])
@@ -175,7 +186,7 @@ def model_proofs(ctx):
     import shutil, subprocess, re
     wd = os.path.join(ctx.work, "proofs_models")
     shutil.copytree(os.path.join(core.SPEC, "proofs"), wd, ignore=shutil.ignore_patterns(".tlacache"))
-    p = subprocess.run(["timeout", "1500", "tlapm", "--threads", "6", "--cleanfp", "LeakyValid.tla"], cwd=wd, stdout=subprocess.PIPE, stderr=subprocess.STDOUT, text=True)
+    p = _tlapm(wd, "LeakyValid.tla")
     m = re.search(r"All (\d+) obligations proved", p.stdout)
     if not m:
         raise core.ToolError("TLAPS did not prove spec/proofs/LeakyValid.tla:\n" + p.stdout[-1500:])
@@ -195,7 +206,7 @@ def range_proofs(ctx):
     # RangeMessage: DecoderStep lifted to the machine that decodes an unbounded message (inductive invariant T <= range, off < range:
     # one word of renormalisation always suffices, no underflow, the point never leaves the interval)
     for mod in ("RangeCore.tla", "RangeSeal.tla", "RangeMessage.tla"):
-        p = subprocess.run(["timeout", "1500", "tlapm", "--threads", "6", "--cleanfp", mod], cwd=wd, stdout=subprocess.PIPE, stderr=subprocess.STDOUT, text=True)
+        p = _tlapm(wd, mod)
         m = re.search(r"All (\d+) obligations proved", p.stdout)
         if not m:
             raise core.ToolError("TLAPS did not prove spec/proofs/%s:\n" % mod + p.stdout[-1500:])
@@ -223,7 +234,7 @@ def ans_proofs(ctx):
     # AnsStep: the step over numbers; AnsMessage: the step over whole configurations (state + bulk) and the inductive invariant
     # of the machine that encodes an unbounded message (decoding in reverse walks back through every earlier configuration)
     for mod in ["AnsStep.tla", "AnsMessage.tla"]:
-        p = subprocess.run(["timeout", "1500", "tlapm", "--threads", "6", "--cleanfp", mod], cwd=wd, stdout=subprocess.PIPE, stderr=subprocess.STDOUT, text=True)
+        p = _tlapm(wd, mod)
         m = re.search(r"All (\d+) obligations proved", p.stdout)
         if not m:
             raise core.ToolError("TLAPS did not prove spec/proofs/%s:\n" % mod + p.stdout[-1500:])
@@ -692,7 +703,7 @@ def chain_proofs(ctx):
     # ChainStep: the step over numbers; ChainMessage: the step over whole remainders configurations (head + bulk) and the inductive
     # invariant of the machine that decodes an unbounded message (encoding back in reverse order restores every configuration)
     for mod in ["ChainStep.tla", "ChainMessage.tla"]:
-        p = subprocess.run(["timeout", "1500", "tlapm", "--threads", "6", "--cleanfp", mod], cwd=wd, stdout=subprocess.PIPE, stderr=subprocess.STDOUT, text=True)
+        p = _tlapm(wd, mod)
         m = re.search(r"All (\d+) obligations proved", p.stdout)
         if not m:
             raise core.ToolError("TLAPS did not prove spec/proofs/%s:\n" % mod + p.stdout[-1500:])
